@@ -10,6 +10,10 @@
    Commands:
      asm_run stream|queue <input line>...      -> per line "=" ^ deliveries (several on a line joined by ","), lines joined by "|", then
                                                   " # Ok <state>" or " # Raise <class>"
+     asm_run_b <puts> <input line>...          puts = one letter per input line, O = the final put of put_line would be accepted,
+                                                  F = it would raise queue.Full (bounded NMEAQueue, queue_step_b)
+                                               -> per line "=" (no put reached) | "=" ^ the sentence put | "=!Full", joined by "|",
+                                                  then " # Ok <state>" or " # Raise <class>"
      asm_spec <item>...   item = F<msg index>/<AIS sentence> | <Gatehouse> | R:<class>
                                                -> per line spec deliveries "raw;payload;bits;valid;seq;chan" joined by "|"
      asm_wf <item>...                          -> 1 when the schedule passes the (proved sound) well-formedness check
@@ -129,6 +133,14 @@ let () = register "asm_run" (function
     String.concat "|" (List.map (fun o -> "=" ^ String.concat "," (List.map str_delivered o)) outs)
     ^ " # " ^ (match fin with Ok st -> "Ok " ^ str_state st | Raise e -> "Raise " ^ str_exn e)
   | _ -> "ERROR bad arguments for asm_run")
+
+let () = register "asm_run_b" (function
+  | puts :: toks when String.length puts = List.length toks ->
+    let env i = (match puts.[i] with 'O' -> BqPutOk | 'F' -> BqPutFull | _ -> failwith "bad put outcome") in
+    let (outs, fin) = bq_run queue_step_b asm_init (List.mapi (fun i t -> (input_of t, env i)) toks) in
+    String.concat "|" (List.map (function BqNone -> "=" | BqPut a -> "=" ^ str_delivered a | BqFull -> "=!Full") outs)
+    ^ " # " ^ (match fin with Ok st -> "Ok " ^ str_state st | Raise e -> "Raise " ^ str_exn e)
+  | _ -> "ERROR bad arguments for asm_run_b")
 
 let item_of (tok : ostring) : asm_item =
   match tok.[0] with
